@@ -195,3 +195,26 @@ package input
 //@   ensures [services_val] forall k string :: k in Merge(Merge(a, b), c).Services ==>
 //@        equivService(Merge(Merge(a, b), c).Services[k], Merge(a, Merge(b, c)).Services[k])
 //@   ensures [decorators] equivDecorators(Merge(Merge(a, b), c).Decorators, Merge(a, Merge(b, c)).Decorators)
+
+// ---- C18: version compatibility gate. svValid/svMaj/svMin are the assumed abstraction of x/mod/semver (A12).
+
+//@ func (*Version).UnmarshalYAML
+//@   property C18
+//@   trusted "calls the opaque yaml unmarshal callback; body is 12 lines: accepts iff the value is a string V with semver.IsValid(\"v\"+V) and stores V"
+
+//@ func NewVersionValidator
+//@   property C18
+//@   ensures [nonnil] result != nil
+//@   ensures [valid_iff] result.valid <==> svValid("v" + version)
+//@   ensures [stored] result.version == (svValid("v" + version) ? "v" + version : version)
+
+// B = v.version (with its leading "v"), V = *i.Version (without): truth table of the property.
+//@ func (*VersionValidator).ValidateVersion
+//@   property C18
+//@   requires [version_type_invariant] i.Version != nil ==> svValid("v" + string(*i.Version))
+//@   requires [validator_invariant] v.valid ==> svValid(v.version)
+//@   ensures [skipped] (i.Version == nil || !v.valid) ==> err == nil
+//@   ensures [gate_major_zero] i.Version != nil && v.valid && svMaj(v.version) == 0 ==>
+//@        ((err == nil) <==> (svMaj("v" + string(*i.Version)) == 0 && svMin("v" + string(*i.Version)) == svMin(v.version)))
+//@   ensures [gate_major_nonzero] i.Version != nil && v.valid && svMaj(v.version) > 0 ==>
+//@        ((err == nil) <==> (svMaj("v" + string(*i.Version)) == svMaj(v.version) && svMin("v" + string(*i.Version)) <= svMin(v.version)))
